@@ -327,6 +327,27 @@ fn check_tape(tape: &[u8], gates: &Gates, stats: &mut Stats, counting: bool, cli
     let mut files: Vec<String> = companions.clone();
     if let Some(sn) = &same_name {
         files.push(sn.clone());
+    } else if choice.ratio(1, 4) && gates.want("UNSUPPORTED_FEATURE_COMPANION") {
+        // a companion need not be valid for the set to have to fail: declarations that the pinned
+        // tree answers with "not implemented" (P9999) - a rule that gives up on one declaration
+        // must not thereby let the faulty one pass
+        const UNSUPPORTED: &[&str] = &[
+            "PROGRAM kx_p1\nVAR CONSTANT\nlim : ARRAY[1..3] OF INT := [1, 2, 3];\nEND_VAR\nEND_PROGRAM\n",
+            "TYPE\nkx_st : STRUCT\na : INT;\nEND_STRUCT;\nEND_TYPE\nFUNCTION_BLOCK kx_fb\nVAR CONSTANT\nc : kx_st := (a := 1);\nEND_VAR\nEND_FUNCTION_BLOCK\n",
+            "TYPE\nkx_si : INT := 5;\nEND_TYPE\n",
+            "TYPE\nkx_s2 : STRUCT\na : INT;\nEND_STRUCT;\nEND_TYPE\nPROGRAM kx_p3\nVAR\ns : kx_s2;\nEND_VAR\ns.a := 1;\nEND_PROGRAM\n",
+            "FUNCTION_BLOCK kx_inner\nVAR_INPUT\ni : INT;\nEND_VAR\nEND_FUNCTION_BLOCK\nFUNCTION_BLOCK kx_outer\nVAR CONSTANT\nf : kx_inner;\nEND_VAR\nEND_FUNCTION_BLOCK\n",
+        ];
+        let k = 1 + choice.below(2);
+        for _ in 0..k {
+            let u = (*choice.pick(UNSUPPORTED)).to_string();
+            if !files.contains(&u) {
+                files.push(u);
+            }
+        }
+        if counting {
+            stats.class("set.with-unsupported-feature-companion");
+        }
     }
     files.push(ftext.clone());
     let n = files.len();
